@@ -74,6 +74,24 @@ def adjacency_has_timelines(g):
     return None
 
 
+def inconsistency(rep, lo, hi):
+    """first disagreement between presence (model == has_interaction, checked by the caller's
+    precondition) and timelines / snapshot ids and counts / stream, or None"""
+    m = rep.m
+    try:
+        if oracles.presence_mismatch(rep, lo, hi):
+            return Violation('C01.presence', 'mismatch')
+        if m.removal:
+            oracles.c03(rep)
+            oracles.c04(rep, lo, hi)
+            oracles.c05(rep)
+        elif m.keys():
+            oracles.c08(rep, lo, hi)
+    except Violation as v:
+        return v
+    return None
+
+
 def do_nx(world, rep, op):
     g, m = rep.g, rep.m
     name = op['name']
@@ -83,6 +101,7 @@ def do_nx(world, rep, op):
     kwargs = {k: materialise(v) for k, v in (op.get('kwargs') or {}).items()}
     lo, hi = oracles.window(m)
     pre = obs.full(g, lo, hi)
+    pre_bad = inconsistency(rep, lo, hi) if op['mode'] == 'any' else None
     if name.startswith('dn.'):
         fn = getattr(dn, name[3:])
         if op.get('pass_graph', True):
@@ -148,6 +167,15 @@ def do_nx(world, rep, op):
     bad = adjacency_has_timelines(g)
     if bad:
         raise Violation('C19.any', 'adjacency-entry-without-timeline', {'op': op, 'pair': repr(bad)})
+    # "...or the stream out of step with presence": timelines, snapshot index and stream must still agree
+    # with the presence relation after the call - judged only if they did before it
+    if pre_bad is None:
+        lo2, hi2 = oracles.window(m)
+        post_bad = inconsistency(rep, lo2, hi2)
+        if post_bad:
+            raise Violation('C19.any', 'left-inconsistent:%s/%s' % (post_bad.oracle, post_bad.sub),
+                            {'op': op, 'detail': post_bad.detail})
+        world.evals += 1
     # nodes / attrs must follow the model (only legitimate node additions happened)
     from .ops import attrs_mismatch
     am = attrs_mismatch(g, m) if not rep.shared_attrs else None
@@ -226,6 +254,17 @@ def gen_nx(rng, rep, cfg, mode):
                 break
             args.append(synth(rng, p.name, m, cfg))
         op = {'op': 'nx', 'mode': mode, 'name': name, 'args': args, 'consume': True}
+        if name in ('add_edge', 'add_edges_from', 'add_weighted_edges_from') and rng.random() < 0.5:
+            # attribute keywords, including ones that look like a timestamp
+            o = cfg['origin']
+            op['kwargs'] = dict(rng.choice([{'t': o + 2}, {'t': o + 1, 'e': o + 4}, {'weight': 2}, {'t': [o, o + 1]},
+                                            {'attr_dict': {'t': o}}]))
+            need = 2 if name == 'add_edge' else 1
+            if 'attr_dict' in op['kwargs'] and len(args) > need:
+                op['kwargs'].pop('attr_dict')
+            if name == 'add_weighted_edges_from':
+                op['kwargs'].pop('attr_dict', None)
+                op['kwargs'].pop('weight', None)
         if name == 'update':
             op['args'] = []
             op['kwargs'] = {'edges': synth(rng, 'edges', m, cfg)}
